@@ -16,9 +16,11 @@ RULE = ("Hypothesis build programs (<= 9 items per circuit, nesting <= 3, 4 qubi
         "twice, top-level operations are the very objects passed to add, add returns its argument for operations and the "
         "nested copy for sub-circuits, every sub-circuit's content is a contiguous run equal to that sub-circuit's own "
         "listing, no operation precedes the operation (or any operation of the sub-circuit) its relation refers to, two "
-        "consecutive listings are the identical object sequence, get_last_entry() is what the last add returned. "
+        "consecutive listings are the identical object sequence, get_last_entry() is what the last add returned; in 3 of 5 "
+        "cases the listing is also read while the circuit is being built (before every add / only before sub-circuit adds "
+        "/ only before operation adds) and must then hold one entry per leaf added so far, the final checks being unchanged. "
         "Non-trivial = >= 2 items at one relation depth of one circuit or >= 1 nested sub-circuit; distinct = canonical "
-        "JSON of the program.")
+        "JSON of (program, peek mode).")
 ASSUMPTIONS = [
     "relation depth stays far below the documented graph depth limit (generated circuits have <= 60 operations)",
     "causality is judged from the relation each listed operation reports through the public relation_link",
@@ -30,12 +32,21 @@ def cfg():
                     p_share=30, max_total_leaves=60, p_dangling=8)
 
 
+PEEKS = ["none", "none", "every", "before_sub", "before_op"]
+
+
 def strat():
-    return P.program_strategy(cfg())
+    from hypothesis import strategies as st
+    return st.fixed_dictionaries({"program": P.program_strategy(cfg()), "peek": st.sampled_from(PEEKS)})
+
+
+def _leaves(circ):
+    return sum(_leaves(it["sub"]) if P.is_sub(it) else 1 for it in circ["items"])
 
 
 def body(case, ctx):
-    program = case
+    # (older replay files hold the bare program)
+    program, peek_mode = (case["program"], case["peek"]) if "program" in case else (case, "none")
     st = P.stats(program)
     g, dreg = program.get("g"), program.get("dreg", {})
     root = M.build(program)
@@ -48,11 +59,25 @@ def body(case, ctx):
     ctx.case(case, nontrivial=siblings or st["n_subs"] > 0, classes=[
         f"siblings={siblings}", f"nesting={st['nesting']}", f"shared_link={st['shared_link']}",
         f"empty_sub={any(P.is_sub(it) and not it['sub']['items'] for _, it in P.iter_items(program['top']))}",
-        f"leaves>=10={st['n_leaves'] >= 10}"])
+        f"leaves>=10={st['n_leaves'] >= 10}", f"peek={peek_mode}"])
+    peeks = []
+
+    def peek(decl, p, it):
+        # a user reading the listing while building: it must hold one entry per leaf added to this circuit so far
+        if peek_mode == "every" or (peek_mode == "before_sub") == bool(P.is_sub(it)):
+            circ = program["top"]
+            for i in p[:-1]:
+                circ = circ["items"][i]["sub"]
+            exp_n = sum(_leaves(x["sub"]) if P.is_sub(x) else 1 for x in circ["items"][:p[-1]])
+            peeks.append((list(p), exp_n, len(decl.operations)))
+
     with P.global_override(g):
         b = None
         with ctx.lib("build"):
-            b = P.build(program)
+            b = P.build(program, peek=None if peek_mode == "none" else peek)
+        for p, exp_n, got_n in peeks:
+            if exp_n != got_n:
+                ctx.fail("listing-while-building", f"before adding item {p} the circuit listed {got_n} operations, {exp_n} leaves were added")
         if b is None:
             return
         # return value of add
